@@ -105,7 +105,7 @@ theorem hop_nom {s s' : Sys} (h : SysOK nat blocked SLA SLB SR liteA liteB T0 H 
         _, by rw [hfl]; exact List.mem_append_right _ (mem_dgramsOf_of_dgram f5), rfl, rfl, mt, rfl,
         f6.congr (he.ids (!c)), rfl⟩, fun _ => rfl⟩
       · simp [pendOf, he.now]
-      · simp
+      · simp [maxBindingRequestTimeout]
 
 /-- the controlled agent's progress survives any delivery or duplication -/
 theorem DP.keep {s s' : Sys} (h : SysOK nat blocked SLA SLB SR liteA liteB T0 H c s) {hd : Dgram} {t : List Dgram}
